@@ -94,7 +94,13 @@ CHECKS.update({
    design_ref="6", note="Trusted base: cc, symbol interposition of clock_gettime (checked: the C program reports which clock the library read first), the hand-transcribed decoder."),
 })
 
-NOT_APPLICABLE = {"C01": "check in progress (end-to-end containment world, DESIGN.md section 4.3/4.4); not claimed until it is built"}
+CHECKS.update({
+ "C01": dict(engine="histmc", category="model_checking", technique=HIST_TECH + "; a physical world model with an extremal clock-error adversary supplies the oracle",
+   text="Every history of poll events up to length 3 (thorough 4) over 9 answer kinds (four synchronised reports incl. negative offset, all-zero and sub-ns values; unsynchronised; stale; unusable; silence; non-tracking reply) with <= 1 (2) timing deviations (poll gap 4.9/5.1/1001 s, reply latency 10 ms/2.9 s, daemon restart after 0.1/10/2000 s) x drift 1/50 ppm x machine uptime 100/5000 s x adversary (error sign; report valid at request or at reply) runs through the whole real pipeline (wire reply -> poller -> updater/FSM -> ShmWriter -> file -> ShmReader -> ClockBoundClient::now(), long-lived and newly opened clients). The realtime clock shows true time plus the largest error the provisos allow (min over past valid reports of B_i + drift x elapsed; 1 s before the first). At every publication, just before the next event, 1 ns either side of as-of+5 s and void-after, up to 1 h after the last event, and with a 3 s preemption between the client's two clock reads: status trusted => earliest-1 <= true time <= latest+1.",
+   design_ref="4.3, 4.4", note=HIST_NOTE + " World assumptions: monotonic clock at the true rate (COARSE granularity not modelled); the error's magnitude grows no faster than the configured drift; containment is linear, so extremal trajectories and endpoint/threshold instants are the worst cases."),
+})
+
+NOT_APPLICABLE = {}
 
 def main():
     checks = []
